@@ -203,9 +203,19 @@ def main(argv=None):
         return 0
 
     os.environ["VERIF_TIER_ACTIVE"] = a.tier
-    units = mod.units(a.tier, seed)
     acc = Acc()
-    jobs = max(1, min(a.jobs, len(units)))
+    try:
+        from . import loader
+
+        loader.load()  # a tree that cannot be imported satisfies nothing
+        units = mod.units(a.tier, seed)
+    except Exception as e:  # noqa: BLE001
+        from . import loader
+
+        clause = "import-failure" if isinstance(e, loader.ImportFailure) else "harness-error"
+        acc.violation({"clause": clause, "exc": type(e).__name__, "unit": "*"}, {"harness": "units"}, "".join(traceback.format_exception(type(e), e, e.__traceback__)[-8:]))
+        units = []
+    jobs = max(1, min(a.jobs, len(units) or 1))
     order = list(range(len(units)))
     # the seed only rotates the dispatch order (and representatives inside the harness)
     order = order[seed % max(1, len(order)):] + order[: seed % max(1, len(order))]
